@@ -482,6 +482,17 @@ class Gen(object):
         if rng.random() < 0.35:
             st["Parameters"] = self.parameters(cur)
             cur = self.safe(lambda: M.template(st["Parameters"], cur, self.fake_ctx(nm), M.Flags()), cur)
+        long_form = rng.random() < self.p.get("p_long_form", 0.15)
+        if long_form:
+            # the service-integration way of calling the same worker: function and arguments travel in Parameters, the
+            # result comes back wrapped in invocation metadata (whose RequestId the model does not predict)
+            st["Resource"] = "arn:aws:states:local::rpcmessage:invoke"
+            payload = st.get("Parameters")
+            st["Parameters"] = {"FunctionName": FN_ARN + fn}
+            if payload is not None:
+                st["Parameters"]["Payload"] = payload
+            else:
+                st["Parameters"]["Payload.$"] = "$"
         # script
         outcomes = []
         errs = []
@@ -516,7 +527,13 @@ class Gen(object):
                 errs.append("States.Timeout")
         self.script[fn] = outcomes
         result = apply_transform(tr, fn, cur)
-        if rng.random() < 0.25:
+        if long_form:
+            result = {"ExecutedVersion": "$LATEST", "Payload": result, "SdkResponseMetadata": {"RequestId": "id"},
+                      "StatusCode": 200}
+            if rng.random() < 0.5:
+                st["ResultSelector"] = {"r.$": "$.Payload", "code.$": "$.StatusCode"}
+                result = {"r": result["Payload"], "code": 200}
+        if "ResultSelector" not in st and rng.random() < 0.25:
             st["ResultSelector"] = self.parameters(result)
             result = self.safe(lambda: M.template(st["ResultSelector"], result, self.fake_ctx(nm), M.Flags()), result)
         rp = self.result_path(doc)
